@@ -68,6 +68,7 @@ type run struct {
 	dead     map[int]bool
 	seenIdx  map[string]bool
 	styleOf  map[int]style // raw test tokens: how they signal success / failure
+	blkSigner *helpers.Signer // pays the fees of transactions delivered in real blocks (block_test.go)
 	tainted  bool          // a genesis round trip changed the indexes: reported once; later book / index breaks of this sequence follow from it
 }
 
@@ -1119,7 +1120,14 @@ func TestC08(t *testing.T) {
 		out.Reset()
 		if seq%3 == 0 && seq != nSeq {
 			// genesis export / import on a state without aliases: a module-owned pair with a non-trivial book survives it
-			r.regcoin(7, nil)
+			var al7 []int
+			if genesisAliasesOn() && seq%2 == 0 {
+				// round 5: the pair that is SWITCHED OFF during the round trip owns aliases as well (alias index entries of a
+				// disabled pair must come back like those of any other pair)
+				al7 = []int{170, 171}
+				r.out.Count("genesis:scenario:switched-off pair with aliases")
+			}
+			r.regcoin(7, al7)
 			r.fundc(7, 0, 30)
 			r.ccoin(7, 0, 1, 10)
 			if seq%2 == 0 {
